@@ -7,7 +7,7 @@ C15 — line-protocol driver (core only). The ops of OG/Meta/Session.lean plus
   transients        → transients <ty.field,…>   (compared with the harness's list)
 -/
 import OG.Meta.Session
-import OG.C15.Snapshot
+import OG.C15.Snapshot2
 
 namespace OG.C15
 open OG.Meta
@@ -18,7 +18,7 @@ def extra (s : Sess) (toks : List String) (_line : String) : Option (Sess × Str
     match OG.Meta.Val.parse (rest.length + 2) rest with
     | some (v, []) => some (s, (Val.restore (Val.snapshot v)).render)
     | _ => none
-  | ["snaprestore"] => some ({ s with cur := restore (snapshot s.cur) }, "ok")
+  | ["snaprestore"] => some ({ s with cur := restore2 (snapshot2 s.cur) }, "ok")
   | ["transients"] =>
     let names := (transient.map fun (t, f) => t ++ "." ++ f)
     some (s, "transients " ++ ",".intercalate (names.toArray.qsort (· < ·)).toList)
